@@ -105,7 +105,15 @@ def recognise(A, cname):
     mi = strip_views(L.model_init)
     if isinstance(mi, T) and mi.op == 'call' and call_parts(mi)[0] == mname and it is not None:
         n_, pos_, kw_ = call_parts(it)
-        if n_ == 'builtin.range' and len(pos_) == 2 and const_val(strip_views(pos_[0])) == 1 and strip_views(pos_[1]).op == 'param' and strip_views(pos_[1]).args[0] == 'iterations':
+        tail_of_range = False
+        it0 = strip_views(it)
+        if it0.op == 'sub' and strip_views(it0.args[1]).op == 'slice':
+            # range(iterations)[1:]
+            sl = strip_views(it0.args[1])
+            rn, rpos, rkw = call_parts(strip_views(it0.args[0]))
+            tail_of_range = const_val(sl.args[0]) == 1 and const_val(sl.args[1]) is None and const_val(sl.args[2]) is None and rn == 'builtin.range' and len(rpos) == 1 \
+                and strip_views(rpos[0]).op == 'param' and strip_views(rpos[0]).args[0] == 'iterations'
+        if tail_of_range or (n_ == 'builtin.range' and len(pos_) == 2 and const_val(strip_views(pos_[0])) == 1 and strip_views(pos_[1]).op == 'param' and strip_views(pos_[1]).args[0] == 'iterations'):
             L.peeled = True
             L.range_ok = True
             L.first_m_call = mi
